@@ -115,9 +115,12 @@ class RefreshTimer(Module):
         done  = Signal()
         count = Signal(bits_for(trefi), reset=trefi-1)
 
+        # Count down while waiting and keep done asserted until wait is released.
         self.sync += [
-            If(self.wait & ~self.done,
-                count.eq(count - 1)
+            If(self.wait,
+                If(~self.done,
+                    count.eq(count - 1)
+                )
             ).Else(
                 count.eq(count.reset)
             )
